@@ -168,6 +168,20 @@ pub fn generate(g: &mut Gen) {
             g.push(format!("opt.run {} 1 1 1 {} {} {}", spec.token(), qt(&w), n, steps.join(" ")), Tol::Tight, &format!("{}/long-history", spec.kind()), true);
         }
     }
+    // gradients that are EXACTLY zero for the first steps of a slot and non-zero afterwards (state that is still exactly zero
+    // is not "unset"): momentum with dampening, Adam, RMSprop with momentum; one slot of every rank
+    for spec in [OptSpec::Sgdm(0.1, 0.9, 0.5, None), OptSpec::Sgdm(0.05, 0.5, 0.25, None), OptSpec::Adam(0.01, 0.9, 0.999, 1e-8, None),
+                 OptSpec::Rmsprop(0.01, 0.9, 1e-8, None, Some(0.5), true), OptSpec::Rmsprop(0.01, 0.9, 1e-8, None, Some(0.9), false)] {
+        for (ri, sh) in [Shape::Single(3), Shape::Double(1, 3), Shape::Triple(1, 1, 3)].iter().enumerate() {
+            let w = g.tensor_of(sh, false);
+            let hist: [[f32; 3]; 5] = [[0.3, 0.0, 0.0], [-0.2, 0.0, 0.5], [0.1, 0.8, 0.0], [0.4, -0.2, 0.0], [0.0, 0.0, 0.7]];
+            let steps: Vec<String> = hist.iter().enumerate().map(|(i, h)| {
+                let gr = match sh { Shape::Single(_) => Tensor::single(h.to_vec()), Shape::Double(..) => Tensor::double(vec![h.to_vec()]), _ => Tensor::triple(vec![vec![h.to_vec()]]) };
+                format!("0 0 0 {} {}", i + 1, qt(&gr))
+            }).collect();
+            g.push(format!("opt.run {} 1 1 1 {} {} {}", spec.token(), qt(&w), hist.len(), steps.join(" ")), Tol::Tight, &format!("{}/zero-then-non-zero/rank{}", spec.kind(), ri + 1), true);
+        }
+    }
     // out-of-range slot: refused
     let p = params_for(g, 0);
     let grad = g.tensor_of(&Shape::Double(2, 3), false);
